@@ -36,7 +36,7 @@ def _walk0(draw, n, dim):
         # strongly uneven sampling: step lengths 2^-3 .. 2^6 (dense runs separated by gaps)
         for _ in range(n - 1):
             lead = draw(st.integers(0, dim - 1))
-            mag = 2.0 ** draw(st.sampled_from([-3, -3, -2, -1, 0, 2, 4, 6, 6, -13]))          # 2^-13: nearly coincident neighbours
+            mag = 2.0 ** draw(st.sampled_from([-3, -3, -2, -1, 0, 2, 4, 6, 6, -13, -27]))          # 2^-13, 2^-27: nearly coincident neighbours
             step = [draw(st.integers(-1, 1)) * mag / 2 for _ in range(dim)]
             step[lead] = draw(st.sampled_from([-1.0, 1.0])) * mag
             pts.append([a + b for a, b in zip(pts[-1], step)])
